@@ -22,11 +22,11 @@ func init() {
 		Cases: func(tier string) int {
 			switch tier {
 			case "thorough":
-				return 25000
+				return 80000
 			case "race":
 				return 1500
 			}
-			return 8000
+			return 10000
 		},
 		Run:            c02Run,
 		Floor:          func(tier string) int { return 500 },
